@@ -234,6 +234,9 @@ func (torrent *Torrent) MetadataComplete() error {
 			if path == nil {
 				return errors.New("file has no path")
 			}
+			if f.Length < 0 || length+f.Length < length {
+				return errors.New("bad file length")
+			}
 			files = append(files,
 				Torfile{Path: path,
 					Offset:  length,
